@@ -101,7 +101,7 @@ def build(rng, quick, origin=None):
         order += [t] * ty['n']
     rng.shuffle(order)
     recs = [dict(kind='E', type=0, enc=False), dict(kind='E', type=1, enc=False), dict(kind='E', type=3, enc=False), dict(kind='E', type=4, enc=False)]
-    payloads = [GL.file_header(), origin or GL.origin(), GL.channel_eflr(chans_all), GL.frame_eflr([dict(name=ty['name'], channels=ty['channels']) for ty in types])]
+    payloads = [GL.file_header(), origin or GL.origin(), GL.channel_eflr(rng.sample(chans_all, len(chans_all)) if rng.random() < 0.6 else chans_all), GL.frame_eflr([dict(name=ty['name'], channels=ty['channels']) for ty in types])]
     counters = [0] * ntypes
     frame_nos = [[] for _ in types]
     fno = [0] * ntypes
